@@ -253,6 +253,22 @@ func c15Unit(c *RunCtx, unit int) {
 			code = w.Prov.Authorize(world.Identity{Provider: "alpha", UID: "u1", Email: "u1@alpha.test"})
 			rec = w.Do(b, world.Req{Method: "GET", Path: P("/oauth2/callback/alpha") + "?state=" + url.QueryEscape(st) + "&code=" + url.QueryEscape(code)})
 			x.judge("oauth2-callback-with-extra-params", R, rec, false, world.PathOAuth2OK)
+			// the round trips that do NOT end in a login: the provider reports an error (the user declined),
+			// the code is refused, the state is wrong — wherever the browser is sent then, it stays on site
+			for _, tail := range []struct{ flow, q string }{
+				{"oauth2-callback-provider-error", "&error=access_denied&error_description=declined"},
+				{"oauth2-callback-provider-error-and-code", "&error=access_denied&code=" + url.QueryEscape(w.Prov.Authorize(world.Identity{Provider: "alpha", UID: "u1", Email: "u1@alpha.test"}))},
+				{"oauth2-callback-refused-code", "&code=not-a-code"},
+			} {
+				b = x.browser()
+				rec = w.Do(b, world.Req{Method: "GET", Path: P("/oauth2/alpha") + "?redir=" + url.QueryEscape(R)})
+				st = ""
+				if u, err := url.Parse(rec.Location); err == nil {
+					st = u.Query().Get("state")
+				}
+				rec = w.Do(b, world.Req{Method: "GET", Path: P("/oauth2/callback/alpha") + "?state=" + url.QueryEscape(st) + tail.q})
+				x.judge(tail.flow, R, rec, false, world.PathOAuth2NotOK)
+			}
 		}
 		// --- the access middleware's own redirect: a hostile PATH becomes the redir of the login page
 		if strings.HasPrefix(R, "/") && !strings.ContainsAny(R, "\x00\x0b\x1f \t\r\n?#") {
